@@ -39,6 +39,26 @@ type hostCfg struct {
 	Scheme string `json:"scheme"` // none | basic | bearer
 	Realm  string `json:"realm"`  // host of the token endpoint it advertises (bearer)
 	Flow   string `json:"flow"`   // password (distribution GET) | refresh (OAuth2 POST) | access (static access token)
+	// Spell: how the challenge spells its scheme (schemes are case-insensitive): 0 Bearer, 1 bearer, 2 BEARER, 3 bEaReR
+	Spell int `json:"spell,omitempty"`
+	// RealmQ: the advertised realm URL carries a query of its own (?tenant=acme) without which the token service refuses
+	RealmQ bool `json:"realmq,omitempty"`
+}
+
+func spell(k int, word string) string {
+	switch k {
+	case 1:
+		return strings.ToLower(word)
+	case 2:
+		return strings.ToUpper(word)
+	case 3:
+		b := []byte(strings.ToLower(word))
+		for i := 1; i < len(b); i += 2 {
+			b[i] -= 'a' - 'A'
+		}
+		return string(b)
+	}
+	return word
 }
 
 type Req struct {
@@ -222,6 +242,9 @@ func (w *world) RoundTrip(req *http.Request) (*http.Response, error) {
 	}
 	if isToken {
 		// the token service: any credential material is accepted; the token names the service and the scopes asked for
+		if w.hosts[service].RealmQ && req.URL.Query().Get("tenant") != "acme" {
+			return resp(403, nil, "") // not the realm URL the registry advertised
+		}
 		w.issued++
 		sc := parseScopes(asked)
 		var ss []string
@@ -246,13 +269,17 @@ func (w *world) RoundTrip(req *http.Request) (*http.Response, error) {
 		if authz == "Basic "+base64.StdEncoding.EncodeToString([]byte(c.Username+":"+c.Password)) {
 			return resp(200, nil, "")
 		}
-		return resp(401, http.Header{"Www-Authenticate": {`Basic realm="` + host + `"`}}, "")
+		return resp(401, http.Header{"Www-Authenticate": {spell(cfg.Spell, "Basic") + ` realm="` + host + `"`}}, "")
 	default:
 		need := requiredScope(repo, req.Method)
 		if authz == "Bearer ACCESS-"+hostTag(host) || (tokHost == host && covers(tokScopes, need)) {
 			return resp(200, nil, "")
 		}
-		return resp(401, http.Header{"Www-Authenticate": {fmt.Sprintf(`Bearer realm="http://%s/token",service="%s",scope="%s"`, cfg.Realm, host, need)}}, "")
+		q := ""
+		if cfg.RealmQ {
+			q = "?tenant=acme"
+		}
+		return resp(401, http.Header{"Www-Authenticate": {fmt.Sprintf(`%s realm="http://%s/token%s",service="%s",scope="%s"`, spell(cfg.Spell, "Bearer"), cfg.Realm, q, host, need)}}, "")
 	}
 }
 
@@ -355,6 +382,7 @@ func genScenario(rng *rand.Rand, id int) Scenario {
 	mk := func(h, other string) hostCfg {
 		c := hostCfg{Scheme: []string{"none", "basic", "bearer", "bearer"}[rng.Intn(4)], Flow: []string{"password", "refresh", "access"}[rng.Intn(3)]}
 		c.Realm = []string{h, hostT, other}[rng.Intn(3)]
+		c.Spell, c.RealmQ = []int{0, 0, 1, 2, 3}[rng.Intn(5)], rng.Intn(3) == 0
 		if c.Scheme == "basic" {
 			c.Flow = "password"
 		}
